@@ -199,12 +199,9 @@ impl<const C: usize> RibM<C> {
         if !(vf * b >= c(mn) - tau && vf * b <= c(mx) + tau) {
             fnd.push(("C16", "value-outside-min-max", format!("value()*boundary = {} not between the corrected minimum {} and maximum {} of the contributing samples {:?}", vf * b, c(mn), c(mx), contrib)));
         }
-        // "the mean of the samples ..., corrected for the pull-up": the correction may be read as applied to the mean or
-        // to the samples before averaging (it is not linear, so the two differ when the finger moves); both are accepted
         let reference = c(mean) / b;
-        let reference2 = contrib.iter().map(|x| c(*x as f64)).sum::<f64>() / ntake as f64 / b;
-        if !((vf - reference).abs() <= tau || (vf - reference2).abs() <= tau) {
-            fnd.push(("C16", "value-not-mean", format!("value() = {:?} but the corrected, rescaled mean of the contributing samples {:?} is {} (mean of the corrected samples: {})", v, contrib, reference, reference2)));
+        if !((vf - reference).abs() <= tau) {
+            fnd.push(("C16", "value-not-mean", format!("value() = {:?} but the corrected, rescaled mean of the contributing samples {:?} is {}", v, contrib, reference)));
         }
         if mn != mx {
             out.count("values_checked_with_mixed_contributors");
